@@ -11,6 +11,7 @@ import (
 
 	"verif/internal/build"
 	"verif/internal/core"
+	"verif/internal/gen/recfam"
 	"verif/internal/gen/schemagen"
 	"verif/internal/gen/typedoc"
 	"verif/internal/harness"
@@ -395,42 +396,19 @@ func famParse(text string) *nast.Document {
 	return d
 }
 
-
-// ---- second small-scope family: one fragment spread at several nesting
-// levels of a self-referential type, in every order with same-key fields
-// (merged occurrences reached through, and spreading, the same fragment)
-
-var recAlphabet = []string{
-	"name", "...F", "child { ...F }", "child { name }", "child { ...G }", "...G", "kids { ...F }",
-	"child { child { ...F } }", "... on Node { ...F }", "n2: child { ...F }", "child { tag ...F }",
-}
-
-func recModel() *model.Schema {
-	N := model.Named
-	m := &model.Schema{Query: "Q", Types: []*model.TypeDef{
-		{Kind: model.Object, Name: "Node", Fields: []*model.FieldDef{{Name: "name", Type: N("String")}, {Name: "tag", Type: N("String")},
-			{Name: "child", Type: N("Node")}, {Name: "kids", Type: model.ListOf(N("Node"))}}},
-		{Kind: model.Object, Name: "Q", Fields: []*model.FieldDef{{Name: "node", Type: N("Node")}}},
-	}}
-	m.Reindex()
-	return m
-}
+// ---- second small-scope family (internal/gen/recfam): one fragment spread at
+// several nesting levels of a self-referential type
 
 func runRecursiveFamily(c *core.Child) {
-	m := recModel()
+	m := recfam.Model()
 	env, err := build.Build(m, 78)
 	if err != nil {
 		c.Violation("harness:schema-build", err.Error(), nil)
 		return
 	}
-	n := len(recAlphabet)
 	idx := 0
 	for L := 1; L <= 3; L++ {
-		cnt := 1
-		for i := 0; i < L; i++ {
-			cnt *= n
-		}
-		for k := 0; k < cnt; k++ {
+		for k := 0; k < recfam.Count(L); k++ {
 			idx++
 			if idx%c.NBatches != c.Batch {
 				continue
@@ -442,30 +420,7 @@ func runRecursiveFamily(c *core.Child) {
 			if !c.Begin(id) {
 				continue
 			}
-			var sels []string
-			x := k
-			for i := 0; i < L; i++ {
-				sels = append(sels, recAlphabet[x%n])
-				x /= n
-			}
-			body := strings.Join(sels, " ")
-			for fv, frags := range []string{
-				"fragment F on Node { name child { name tag } }\nfragment G on Node { tag child { ...F } }",
-				"fragment F on Node { child { child { name } } kids { name } }\nfragment G on Node { child { ...F tag } }",
-			} {
-				text := "{ node { " + body + " } }"
-				usesG := strings.Contains(body, "...G")
-				usesF := strings.Contains(body, "...F") || usesG
-				parts := strings.Split(frags, "\n")
-				if usesF {
-					text += "\n" + parts[0]
-				}
-				if usesG {
-					text += "\n" + parts[1]
-				}
-				if !usesF && fv == 1 {
-					continue
-				}
+			for _, text := range recfam.Texts(L, k) {
 				docAST := famParse(text)
 				astDoc, perr := harness.Parse(text)
 				if perr != nil {
@@ -485,7 +440,7 @@ func runRecursiveFamily(c *core.Child) {
 					exp = evaluate(c, env, text, docAST, "", nil, nil, plan, "DE")
 				})
 				c.Feature("recursive-family-case")
-				if exp != nil && usesF && len(exp.Invocations) >= 3 {
+				if exp != nil && strings.Contains(text, "fragment") && len(exp.Invocations) >= 3 {
 					c.Nontrivial(core.HashString("rec\x00" + text))
 				}
 			}
